@@ -166,7 +166,15 @@ class DateTimeCodec:
     def encode(self, obj: Any) -> EncodedValue:  # noqa: PLR6301
         match obj:
             case datetime():
-                return EncodedValue(TypeTag.DATETIME, obj.isoformat())
+                text = obj.isoformat()
+                # isoformat()/fromisoformat() is not an exact inverse for every datetime (e.g. a
+                # UTC offset below one second is dropped when parsing): reject instead of
+                # handing back a different instant later.
+                restored = datetime.fromisoformat(text)
+                if restored != obj or restored.utcoffset() != obj.utcoffset():
+                    msg = f"datetime cannot be serialized exactly: {obj!r}"
+                    raise SerDesError(msg)
+                return EncodedValue(TypeTag.DATETIME, text)
             case date():
                 return EncodedValue(TypeTag.DATE, obj.isoformat())
             case _:
